@@ -38,8 +38,8 @@ def run(ctx):
     for job, r in res:
         for o in r.json_lines():
             if o.get("ev") == "stats":
-                p = per.setdefault(o["model"], {"value_cases": 0, "exhaustive_pairs": 0, "conc_ops": 0, "sb_rounds": 0, "sb_outcomes": [0, 0, 0, 0], "mp_rounds": 0, "max_threads": 0})
-                for k in ("value_cases", "exhaustive_pairs", "conc_ops", "sb_rounds", "mp_rounds"):
+                p = per.setdefault(o["model"], {"value_cases": 0, "exhaustive_pairs": 0, "conc_ops": 0, "refcount_rounds": 0, "sb_pointer_rounds": 0, "sb_rounds": 0, "sb_outcomes": [0, 0, 0, 0], "mp_rounds": 0, "max_threads": 0})
+                for k in ("value_cases", "exhaustive_pairs", "conc_ops", "refcount_rounds", "sb_pointer_rounds", "sb_rounds", "mp_rounds"):
                     p[k] += o[k]
                 for i in range(4):
                     p["sb_outcomes"][i] += o["sb_outcomes"][i]
@@ -56,7 +56,7 @@ def run(ctx):
             for fn in glob.glob(job["tsan_log"] + ".*"):
                 os.unlink(fn)
     cov = ctx.coverage
-    cov["evaluations"] = sum(p["value_cases"] + p["conc_ops"] + p["sb_rounds"] + p["mp_rounds"] for p in per.values())
+    cov["evaluations"] = sum(p["value_cases"] + p["conc_ops"] + p["sb_rounds"] + p["sb_pointer_rounds"] + p["mp_rounds"] for p in per.values())
     cov["distinct_nontrivial"] = sum(p["value_cases"] for p in per.values())
     cov["rule"] = ("evaluations = single-threaded operand cases (each exercises all int and pointer operations) + concurrent operations + litmus rounds, summed over the three atomic models. "
                    "distinct_nontrivial = operand cases (boundary pairs are exhaustive: 17x17 int and 19x19 pointer-width values per operation; the rest are PRNG draws). "
